@@ -211,3 +211,204 @@ def _check_history(case, sampler, ref, params, bad):
 def gen_cases(seed, n, **kw):
     rng = random.Random(seed)
     return [plumbing.gen_case(rng, 's%d' % i, **kw) for i in range(n)]
+
+
+# --------------------------------------------------------------------------
+# C15: jump-interval schedule on the real code
+# --------------------------------------------------------------------------
+
+def _due_by_statement(i, k, D, adaptive, start_step):
+    """Is a proposal with jump interval k and duration D due at chain iteration i (1-based)?
+    (property text: iterations 1, k+1, 2k+1, ... until D proposal steps have elapsed -
+    measured from the start step for adaptive classes - then every iteration)."""
+    if k == 1:
+        return True
+    steps = (i - 1) // k
+    elapsed = steps - start_step + 1 if adaptive else steps
+    if elapsed >= D:
+        return True
+    return (i - 1) % k == 0
+
+
+def schedule_findings(seed, families=None, full=False, max_findings=4):
+    import families as F
+    from epsie.chain import Chain
+    from epsie.proposals import Normal
+    from epsie.proposals.base import BaseAdaptiveSupport
+    rng = random.Random(seed)
+    out = []
+    ncfg = 0
+    nsteps_total = 0
+    fams = list(families or F.FAMILIES)
+    if not full:
+        rng.shuffle(fams)
+        fams = fams[:10]
+    for fam in fams:
+        cls, kind, lo, hi = F.FAMILIES[fam]
+        for k in ((2, 3) if full else (rng.choice([2, 3]),)):
+            for D in ((2, 4) if full else (rng.choice([2, 3, 4]),)):
+                for st in ((1, 2) if fam in F.ADAPTIVE and fam not in F.SS else (1,)):
+                    for interrupt in (None, 'clear', 'resume'):
+                        ncfg += 1
+                        res = _schedule_one(fam, k, D, st, interrupt, rng, F, Chain, Normal, BaseAdaptiveSupport)
+                        nsteps_total += res[1]
+                        for key, text, payload in res[0]:
+                            if len(out) < max_findings and not any(k_ == key for k_, _, _ in out):
+                                out.append((key, text, payload))
+    return out, {'configurations': ncfg, 'steps': nsteps_total}
+
+
+def _schedule_one(fam, k, D, st, interrupt, rng, F, Chain, Normal, BaseAdaptiveSupport):
+    cls, kind, lo, hi = F.FAMILIES[fam]
+    n = lo
+    names = ['x%d' % i for i in range(n)]
+    prng = random.Random(rng.randrange(1 << 30))
+    state = prng.getstate()
+    doms = {p: F.domain_for(kind, prng, i) for i, p in enumerate(names)}
+    box = {p: doms[p] for p in names if kind in ('box', 'intbox')}
+    model = I.LoggedModel(names + ['z'], kind='quad', box=box)
+
+    def build(seed):
+        pr = random.Random(12345)
+        slow = F.make(fam, names, doms, pr, jump_interval=k, window=D, start_step=st)
+        fast = Normal(['z'], cov=[0.3])
+        return Chain(names + ['z'], model, [slow, fast], bit_generator=seed, beta=0.5), slow
+
+    ch, slow = build(7)
+    adaptive = isinstance(slow, BaseAdaptiveSupport)
+    Dcfg = slow.jump_interval_duration
+    if slow.jump_interval != k:
+        return ([('jump-interval-ignored:' + fam,
+                  '%s constructed with jump_interval=%d has jump_interval=%d' % (fam, k, slow.jump_interval),
+                  {'family': fam, 'requested': k, 'observed': slow.jump_interval})], 0)
+    srng = random.Random(99)
+    start = {}
+    for i, p in enumerate(names):
+        start[p] = F.start_value(kind if kind != 'sphere' else 'sphere', doms[p], srng, i)
+    start['z'] = 0.1
+    ch.start_position = start
+    N = k * (D + st + 2) + 3
+    cut = rng.randrange(1, N)
+    findings = []
+    discrete = kind in ('int', 'intbox')
+    steps = 0
+    for i in range(1, N + 1):
+        if interrupt == 'clear' and i - 1 == cut:
+            ch.clear()
+        if interrupt == 'resume' and i - 1 == cut:
+            st_ = pickle.loads(pickle.dumps(ch.state))
+            ch, slow = build(4242)
+            ch.set_state(st_)
+        before = dict(ch.current_position)
+        bstats = dict(ch.current_stats)
+        dig = I.adaptive_digest(slow)
+        ch.step()
+        steps += 1
+        prop = ch.proposed_position
+        moved = any(not _eq(prop[p], before[p]) for p in names)
+        due = _due_by_statement(i, k, Dcfg, adaptive, st if adaptive else 1)
+        ctx = {'family': fam, 'k': k, 'duration': Dcfg, 'start_step': st, 'iteration': i,
+               'interrupt': interrupt, 'cut': cut if interrupt else None}
+        if moved and not due:
+            findings.append(('moved-when-not-due:%s:%s' % (fam, interrupt), 'a slow proposal changed its parameters on an '
+                             'iteration where it is not due', ctx))
+            break
+        if due and not moved and not discrete:
+            findings.append(('not-moved-when-due:%s:%s' % (fam, interrupt), 'a slow proposal kept its parameters on an '
+                             'iteration where it is due', ctx))
+            break
+        if not due and I.adaptive_digest(slow) != dig:
+            findings.append(('adapted-when-not-due:%s:%s' % (fam, interrupt), 'a slow proposal was adapted on an iteration '
+                             'where it did not propose', ctx))
+            break
+        if not due:
+            # the fast proposal is symmetric: the recorded ar must be the plain posterior ratio
+            r = model(**{p: prop[p] for p in names + ['z']})
+            if r[1] != -numpy.inf:
+                logar = r[1] + r[0] * 0.5 - bstats['logp'] - bstats['logl'] * 0.5
+                want = 1.0 if logar > 0 else math.exp(logar)
+                got = float(ch.acceptance[-1]['acceptance_ratio'])
+                if abs(got - want) > 1e-12 * max(want, 1e-300):
+                    findings.append(('hastings-when-not-due:%s:%s' % (fam, interrupt), 'a proposal that is not due '
+                                     'contributed to the acceptance probability', dict(ctx, got=got, want=want)))
+                    break
+    return findings, steps
+
+
+# --------------------------------------------------------------------------
+# C18: evaluation counts on the real code
+# --------------------------------------------------------------------------
+
+def call_count_findings(case, max_findings=3):
+    """Oracle from the property text: start = one call per chain and level; every iteration =
+    one call per chain and level at the proposed point; nothing else calls the model; the values
+    recorded for an accepted point come from that call (stateful blob = call index)."""
+    out = []
+    params = [p[0] for p in case.params]
+    model = plumbing.make_model(case)
+    model.blobs = True
+    model.stateful = True
+    has_comp = any(kw.get('componentwise') for _, _, kw in case.props)
+
+    def bad(key, text, extra=None):
+        if len(out) < max_findings:
+            out.append((key, text, {'case': case.describe(), 'detail': extra}))
+
+    nlev = len(case.betas) if case.kind == 'pt' else 1
+    per_iter = case.nchains * nlev
+    with StepCapture() as cap:
+        sampler = plumbing.build_sampler(case, case.seed, model)
+        n0 = model.ncalls
+        sampler.start_position = plumbing.start_positions(case)
+        if model.ncalls - n0 != per_iter:
+            bad('start-calls', 'setting the start positions made %d model calls, expected %d' % (model.ncalls - n0, per_iter))
+        for op in case.ops:
+            n0 = model.ncalls
+            if op[0] == 'run':
+                cap.events = []
+                # per-step check through the capture
+                orig_events_len = 0
+                sampler.run(op[1])
+                made = model.ncalls - n0
+                want = op[1] * per_iter
+                if (not has_comp and made != want) or (has_comp and made < want):
+                    bad('run-calls', 'run(%d) made %d model calls, expected %d' % (op[1], made, want),
+                        {'nchains': case.nchains, 'nlevels': nlev})
+                for ev in cap.events:
+                    if ev['acc']['accepted']:
+                        # the blob's b1 is the index of the call that produced it; it must be a call made
+                        # during this run and the recorded logl must be that of the proposed point
+                        b1 = ev['blob']['b1']
+                        if not (n0 < b1 <= model.ncalls):
+                            bad('stale-values', 'an accepted record carries values from an evaluation made before this run',
+                                {'b1': float(b1), 'calls_before_run': n0})
+                    else:
+                        if ev['prev_blob'] is not None and not _eq(ev['blob']['b1'], ev['prev_blob']['b1']):
+                            bad('reject-new-values', 'a rejected step recorded values of a new evaluation', None)
+            elif op[0] == 'clear':
+                sampler.clear()
+            elif op[0] == 'saveload':
+                try:
+                    st = pickle.loads(pickle.dumps(sampler.state))
+                except ValueError:
+                    continue
+                new = plumbing.build_sampler(case, case.seed + 7919, model)
+                if model.ncalls != n0:
+                    bad('construct-calls', 'constructing a sampler evaluated the model', None)
+                new.set_state(st)
+                sampler = new
+            elif op[0] in ('dump', 'getall'):
+                try:
+                    _ = sampler.state
+                except ValueError:
+                    pass
+                if sampler.chains[0].iteration > 0 and len(sampler.chains[0]) > 0:
+                    _ = (sampler.positions, sampler.stats, sampler.acceptance, sampler.blobs,
+                         sampler.current_positions, sampler.current_stats, sampler.current_blobs)
+                    for ch in sampler.chains:
+                        _ = ch[0]
+                        if isinstance(ch, ParallelTemperedChain) and ch.ntemps > 1 and len(ch) >= ch.swap_interval:
+                            _ = (ch.temperature_swaps, ch.temperature_acceptance)
+            if op[0] != 'run' and model.ncalls != n0:
+                bad('call-outside-step:' + op[0], 'operation %s evaluated the model %d time(s)' % (op[0], model.ncalls - n0))
+    return out
